@@ -18,7 +18,7 @@ import (
 
 // C18 — options act only on their own aspect, in any order, on every Evaluate.
 
-const c18Rule = "option lists over {WithTagName(bexpr|alt), WithHookFn(identity|unwrap|constant|unwrap+upper-casing strings|nil), WithUnknownValue(v), WithMaxExpressions(0|>=N|small)} with repeats, nil options " +
+const c18Rule = "option lists over {WithTagName(bexpr|alt), WithHookFn(identity|unwrap|constant|unwrap+upper-casing strings|re-entrant (the hook evaluates other expressions)|nil), WithUnknownValue(v), WithMaxExpressions(0|>=N|small)} with repeats, nil options " +
 	"and all permutations; structs tagged under both tag names, map values wrapped in the hook's wrapper struct; several Evaluate calls per evaluator, the caller overwriting and re-using its option slice (spread into CreateEvaluator) between them, and its Option values also passed to other CreateEvaluator calls before and after overriding options; oracles: " +
 	"permutations agree, last of repeated options wins, neutral settings equal their absence, the unwrap hook makes wrapped documents behave as unwrapped ones and agrees " +
 	"with the reference interpreter applying the hook after every step, later calls equal the first; non-trivial = >= 2 distinct non-neutral options whose aspect the " +
@@ -47,6 +47,8 @@ func (s optSpec) option() bexpr.Option {
 			return bexpr.WithHookFn(constHook)
 		case ref.HookShout:
 			return bexpr.WithHookFn(shoutHook)
+		case ref.HookNested:
+			return bexpr.WithHookFn(nestedHook)
 		}
 		return bexpr.WithHookFn(nil)
 	case "unknown":
@@ -272,7 +274,7 @@ func c18Check(t failer, c *c18Case) (ref.Set, int) {
 		}
 		switch kind {
 		case "hook":
-			neutral = eff.Hook == int(ref.HookIdentity) || eff.Hook == 0
+			neutral = eff.Hook == int(ref.HookIdentity) || eff.Hook == 0 || eff.Hook == int(ref.HookNested)
 		case "tag":
 			neutral = eff.Tag == ""
 		case "max":
@@ -380,7 +382,7 @@ func TestC18_Options(t *testing.T) {
 			case 0, 1:
 				specs = append(specs, optSpec{Kind: "tag", Tag: []string{uni.AltTag, "bexpr", uni.AltTag}[rapid.IntRange(0, 2).Draw(t, "tag")]})
 			case 2, 3:
-				specs = append(specs, optSpec{Kind: "hook", Hook: []int{2, 0, 1, 2, 3, 4}[rapid.IntRange(0, 5).Draw(t, "hook")]})
+				specs = append(specs, optSpec{Kind: "hook", Hook: []int{2, 0, 1, 2, 3, 4, 5, 5}[rapid.IntRange(0, 7).Draw(t, "hook")]})
 			case 4, 5:
 				k := uni.ScalarKinds[rapid.IntRange(0, len(uni.ScalarKinds)-1).Draw(t, "uk")]
 				specs = append(specs, optSpec{Kind: "unknown", Unknown: uni.GenScalar(t, &uni.Type{K: k}, uni.Profile{})})
